@@ -76,11 +76,11 @@ func synthRoutes(r *rng, idx int, withVarForm bool) (*modSpec, []routeIntent) {
 	}
 	var b strings.Builder
 	fmt.Fprintf(&b, "package main\n\nimport (\n\t\"fmt\"\n\n\t\"%s/echo\"\n\t\"%s/inner\"\n)\n\nvar _ = fmt.Sprint\n\n", mod, mod)
-	b.WriteString("const pkgRoute = \"/pkg_const/\"\n\ntype IdItem int64\n\ntype Params struct {\n\tA int\n\tB string\n}\n\ntype Result struct {\n\tOK bool\n\tItems []IdItem\n}\n\ntype controller struct{}\n\n")
+	b.WriteString("const pkgRoute = \"/pkg_const/\"\n\ntype IdItem int64\n\ntype Params struct {\n\tA int\n\tB string\n}\n\ntype Result struct {\n\tOK bool\n\tItems []IdItem\n}\n\ntype controller struct{}\n\ntype admin struct{}\n\n")
 	b.WriteString("func QueryParamInt[T ~int64](echo.Context, string) (T, error) { return 0, nil }\nfunc (controller) QueryParamInt64(echo.Context, string) int64 { return 0 }\nfunc (controller) QueryParamBool(echo.Context, string) bool { return false }\nfunc FormValueJSON(echo.Context, string, any) error { return nil }\n\n")
 	var intents []routeIntent
 	var reg strings.Builder
-	reg.WriteString("func routes(e *echo.Echo, ct *controller, cv controller, ext inner.Controller) {\n\tconst localRoute = \"local_const\"\n")
+	reg.WriteString("func routes(e *echo.Echo, ct *controller, cv controller, ext inner.Controller, ad admin) {\n\tconst localRoute = \"local_const\"\n")
 	n := 3 + r.intn(8)
 	verbs := []string{"GET", "POST", "PUT", "DELETE"}
 	for i := 0; i < n; i++ {
@@ -139,6 +139,30 @@ func synthRoutes(r *rng, idx int, withVarForm bool) (*modSpec, []routeIntent) {
 		}
 		fmt.Fprintf(&reg, "\te.%s(%s, %s)\n", in.Verb, pathExpr, handlerExpr)
 		intents = append(intents, in)
+	}
+	// handlers sharing one name: methods of two receiver types and a function (resolution must go by object, not by name)
+	if r.chance(2, 3) {
+		type shared struct {
+			kind, expr, decl string
+		}
+		cands := []shared{
+			{"method-pointer", "ct.Shared", "func (ct controller) Shared(c echo.Context) error {\n%s}\n\n"},
+			{"method-value", "ad.Shared", "func (ad admin) Shared(c echo.Context) error {\n\tvar ct controller\n\t_ = ct\n%s}\n\n"},
+			{"func", "Shared", "func Shared(c echo.Context) error {\n\tvar ct controller\n\t_ = ct\n%s}\n\n"},
+		}
+		shuffle(r, cands)
+		var decls []string
+		for i, c := range cands[:2+r.intn(2)] {
+			body, stmts := synthBody(r, payloads, false)
+			in := routeIntent{Verb: pick(r, verbs), URL: fmt.Sprintf("/shared/%d", i), HandlerKind: c.kind, Name: "Shared", Stmts: stmts}
+			decls = append(decls, fmt.Sprintf(c.decl, body))
+			fmt.Fprintf(&reg, "\te.%s(%q, %s)\n", in.Verb, in.URL, c.expr)
+			intents = append(intents, in)
+		}
+		shuffle(r, decls)
+		for _, d := range decls {
+			b.WriteString(d)
+		}
 	}
 	// things that are not registrations: a one-argument call and a non-verb method
 	reg.WriteString("\te.PATCH(\"/not_a_known_verb\", topLevelNoop)\n\tfmt.Println(\"GET\", localRoute)\n}\n\nfunc topLevelNoop(echo.Context) error { return nil }\n")
